@@ -223,11 +223,55 @@ def r15c(ctx, P):
                    P.fns[g].short, where.loc() if where else "?", bsite.loc()), where.loc() if where else bsite.loc())
 
 
+def path_threading_rule(ctx, P, rid, scope=("index::manifest", "index::segment", "query::filters"), floor=8):
+    """Shared: recursive descent over nested fields / nested filters threads the accumulated dotted path."""
+    import re
+    ctx.rule(rid, "THREADING (one name per nested field on every side): the schema's resolved fields, the analyzer map, the document "
+                  "collector and the nested filters each walk the nested-field tree recursively with an accumulated dotted path "
+                  "parameter (`prefix` / `base_path`). On every call between two functions of one recursion cycle, the argument in the "
+                  "callee's accumulator position depends on the caller's accumulator (values are followed into Strings built with "
+                  "push_str / format!). A level that restarts the path from the local name makes the walkers disagree from that depth "
+                  "on: a field is resolved and validated under one name and looked up (analyzer, column) under another")
+
+    def acc_params(f):
+        out = []
+        for i in range(1, f.arg_count + 1):
+            nm = (f.locals[i].get("name") or "")
+            ty = f.arg_ty(i)
+            if re.search(r"prefix|base", nm) and ("str" in ty or "String" in ty) and "Path" not in ty:
+                out.append(i)
+        return out
+    cands = {q: f for q, f in P.fns.items() if f.crate == "searchlite_core" and not is_test_or_bench(f) and f.kind != "closure" and
+             any(sc in q for sc in scope) and acc_params(f)}
+    n = 0
+    for q, f in sorted(cands.items()):
+        sl = None
+        for b, t in f.calls():
+            g = callee_of(t)
+            if g not in cands or not (g == q or q in P.reach(g)):
+                continue
+            G = cands[g]
+            sl = sl or Slice(f, through_all_calls=True, into_containers=True)
+            for pi in acc_params(G):
+                if pi - 1 >= len(t["args"]):
+                    continue
+                n += 1
+                ctx.saw(f)
+                dep = sl.args(t["args"][pi - 1]) & set(acc_params(f))
+                ctx.ob(rid, "%s:%s->%s:%s" % (rid, f.short.rsplit("::", 1)[-1], G.short.rsplit("::", 1)[-1], G.locals[pi].get("name")), bool(dep),
+                       "the path handed to %s continues the caller's accumulated path" % G.short.rsplit("::", 1)[-1] if dep else
+                       "%s calls %s at %s with a `%s` that does not depend on its own accumulated path: below this level the dotted "
+                       "field names restart, so deeper fields are registered under a truncated name" % (
+                           f.short, G.short.rsplit("::", 1)[-1], Site(f, b).loc(), G.locals[pi].get("name")), Site(f, b).loc())
+    ctx.floor(rid, n, floor, "recursive calls with an accumulated path (%s)" % ", ".join(scope))
+
+
 def run(ctx, progs):
     P = progs.get("default")
     r15a(ctx, P)
     r15b(ctx, P)
     r15c(ctx, P)
+    path_threading_rule(ctx, P, "R15.d")
     if ctx.tier == "thorough":
         ctx.config = "features"
         Pf = progs.get("features")
